@@ -14,7 +14,7 @@ def run(check, pool, Task):
     validate.apply(check, ['box_kernels', 'bounds_kernels', 'measures', 'point_kernels'])
     thorough = check.tier == 'thorough'
     small = [d for d in W.DERIVS if not d.startswith('big:')]
-    derivs = small if thorough else W.QUICK_DERIVS + ['slice[1:][1:]', 'mask', 'step[::2]', 'take[-2,-1]', 'take[-1,0,1]', 'getitem[[-2,-1]]', 'slice[::-2]', 'iter']
+    derivs = small if thorough else W.QUICK_DERIVS + ['slice[1:][1:]', 'mask', 'step[::2]', 'take[-2,-1]', 'take[-1,0,1]', 'getitem[[-2,-1]]', 'slice[::-2]', 'iter', 'slice[3:1]', 'slice[-1:2]']
     check.bounds.update({'arrays': '5 elements per kind incl. one missing and one empty element', 'derivations': derivs,
                          'depth': 'histories of depth <= 3 (e.g. pickle(slice)[1:], take(concat), slice[1:][1:])',
                          'quantities': list(ALLQ) + ['PointArray.intersects(shape)', 'hilbert_distance (under C08)'],
